@@ -9,7 +9,7 @@ import random
 from pathlib import Path
 
 from .. import common as C
-from .. import l1, render
+from .. import l1, render, vmv
 
 PID = "C01"
 
@@ -75,6 +75,10 @@ def run(tier, replay=None):
                       f"{d['path']}: semantics prescribes status={d['exp_status']} out={d['exp_out']}; real binary exit={d['obs_exit']} class={d['obs_fclass']} out={d['obs_out']}",
                       dict(case=c["id"], verdict=d, files={"main.ms": c["src"]}, stderr=[o["err"] for o in c["obs"]],
                            how="render prog, run `mscript run main.ms -q` and `compile`+`execute`, compare with MSLang!Run"))
+    # ---- the same programs one level down: the compiled code on the value machine (MSVMV) must be what the
+    # interpreter did instruction by instruction, and must mean what the source means (MSLang)
+    vres = vmv.stage(binary, work / "vmv", cases, 1200 if tier == "quick" else 12000, rnd)
+    vcov = vmv.report(rep, vres, "core program")
     statuses = {}
     for c in cases:
         if not c["rejected"]:
@@ -83,7 +87,8 @@ def run(tier, replay=None):
     rep.coverage = dict(
         programs=len(cases), disagreements_checked=len(dis), enumerated=total, judged=len(cases) - len(rejected),
         out_of_model=len(skips), rejected_by_compiler=len(rejected), outcome_histogram=statuses,
-        executions=2 * len(cases), states=st["states"] + g.distinct, transitions=st["transitions"] + g.generated,
+        executions=2 * len(cases), states=st["states"] + g.distinct + vres["states"], transitions=st["transitions"] + g.generated + vres["transitions"],
+        traces_validated_against_impl=vres["recorded"], **vcov,
         evaluations=len(cases), distinct_nontrivial=len(cases),
         rule=f"GenCtl.tla BFS: every path of <= {depth} constructs over 16 construct kinds x 7 terminators x padded/bare (exhaustive up to depth {full_depth}, seeded sample of {len(cases) - len(keep)} of the {len(rest)} depth-{depth} programs); every program is distinct by construction; each run through `run` and `compile`+`execute`",
         exhaustive=(len(cases) == total), exhaustive_to_depth=full_depth,
